@@ -92,6 +92,8 @@ type Run struct {
 	deadlockIsViolation bool
 	syncState map[*value]any
 	lastPanic string
+	pinned   map[*Term]uint64 // sub-terms the path condition fixes to a constant (pinned.go)
+	detMemo  map[*Term]uint64
 	schedDependent bool // a scheduling/select choice with more than one option was made
 	dbgLog, parentLog []string
 }
@@ -181,6 +183,7 @@ func (w *World) addPC(t *Term) {
 	}
 	r.pcSet[t] = true
 	r.pc = append(r.pc, t)
+	r.pin(t)
 	// split conjunctions so later lookups hit
 	if t.Op == OpBAnd {
 		r.pcSet[t.A] = true
@@ -349,6 +352,9 @@ func (w *World) branchV(c *Term, val uint64) bool {
 	if r.pcSet[nc] {
 		return false
 	}
+	if v, ok := w.detEval(c); ok {
+		return v != 0 // fixed by earlier concretisations: no decision, no query
+	}
 	if r.cursor < len(r.trail) {
 		d := r.trail[r.cursor]
 		if fp := w.fingerprint(c); d.fp != fp {
@@ -424,6 +430,7 @@ func (w *World) branchV(c *Term, val uint64) bool {
 func (w *World) notePC(t *Term) {
 	r := w.run
 	r.pcSet[t] = true
+	r.pin(t)
 	if t.Op == OpBAnd {
 		r.pcSet[t.A] = true
 		r.pcSet[t.B] = true
@@ -441,6 +448,9 @@ func (w *World) concretize(t *Term, limit int) uint64 {
 			panic(pathEnd{"bound-hit"})
 		}
 		r := w.run
+		if dv, ok := w.detEval(t); ok {
+			return dv
+		}
 		// the witness satisfies the path condition, so if t is already pinned it evaluates to the pinned value
 		v := Eval(t, r.witness, r.evalMemo)
 		c := w.tt.Cmp(OpEq, t, w.tt.Const(v, t.W))
@@ -521,6 +531,9 @@ func (w *World) check(cond value, label string, where string) {
 		}
 	case *Term:
 		if r.pcSet[c] {
+			return
+		}
+		if v, ok := w.detEval(c); ok && v != 0 {
 			return
 		}
 		if r.cursor < len(r.trail) {
